@@ -26,6 +26,7 @@ type funcTarget struct{ pkg, name string }
 
 // the functions translated; each has an equivalence theorem with the hand model in coq/Model/FuncsProofs.v
 var funcTargets = []funcTarget{
+	{"key", "CrvAlg"},
 	{"key", "Ops_Has"},
 	{"key", "Ops_EmptyOrHas"},
 	{"cose", "xorIV"},
@@ -758,6 +759,53 @@ func (f *ftr) opAssign(n *ast.AssignStmt, cur, rhs term, t types.Type) term {
 
 // ---- printing
 
+// hasJump: does the block contain a return / break / continue at any depth (outside nested loops for break / continue)
+func hasJump(b []irStmt) bool {
+	for _, s := range b {
+		switch x := s.(type) {
+		case irReturn:
+			if !isErrReturn(x) {
+				return true
+			}
+		case irBreak, irContinue:
+			return true
+		case irIf:
+			if hasJump(x.then) || hasJump(x.els) {
+				return true
+			}
+		case irRange:
+			if hasReturn(x.body) {
+				return true
+			}
+		}
+	}
+	return false
+}
+
+// returning an error needs no jump: Err propagates through every bind
+func isErrReturn(r irReturn) bool { return r.val.s == "Err" && !r.val.pure }
+
+func hasReturn(b []irStmt) bool {
+	for _, s := range b {
+		switch x := s.(type) {
+		case irReturn:
+			if isErrReturn(x) {
+				continue
+			}
+			return true
+		case irIf:
+			if hasReturn(x.then) || hasReturn(x.els) {
+				return true
+			}
+		case irRange:
+			if hasReturn(x.body) {
+				return true
+			}
+		}
+	}
+	return false
+}
+
 func terminates(b []irStmt) bool {
 	if len(b) == 0 {
 		return false
@@ -872,6 +920,11 @@ func (f *ftr) emit(b []irStmt, k kont, scope map[string]bool) string {
 			return "(" + p + "if " + c + " then " + f.emit(x.then, k, scope) + "\n  else " + f.emit(append(append([]irStmt{}, x.els...), rest...), k, scope) + ")"
 		case te:
 			return "(" + p + "if " + c + " then " + f.emit(append(append([]irStmt{}, x.then...), rest...), k, scope) + "\n  else " + f.emit(x.els, k, scope) + ")"
+		}
+		if hasJump(x.then) || hasJump(x.els) {
+			// a branch that may leave the function (or loop) from inside and may also fall through: continue each branch
+			// with the rest of the list (the statements after the if are printed twice)
+			return "(" + p + "if " + c + " then " + f.emit(append(append([]irStmt{}, x.then...), rest...), k, scope) + "\n  else " + f.emit(append(append([]irStmt{}, x.els...), rest...), k, scope) + ")"
 		}
 		// both fall through: join on the outer variables either branch assigns
 		acc := map[string]bool{}
